@@ -461,6 +461,70 @@ def extra(ctx, uberjob):
                 ctx.fail("unusual-exception:account", "a call raising a %s object: %s; %d failed notification(s); run %s"
                          % (exc if exc is NESTED else type(exc).__name__, d or "account well-formed", nfailed, oc), {"exception": exc if exc is NESTED else type(exc).__name__, "max_workers": workers,
                                                                                       "notifications": [repr(e) for e in seq[:30]]})
+    # (h) registry runs over plans with the less usual kinds of node: a zero-argument call WITHOUT a store (a source of the plan that is not
+    # in the registry), a registered literal, a registered literal whose store cannot report its modified time.  The account is
+    # well-formed; after a successful run completed = total in every scope of both sections, and the 'stale' totals count the calls examined
+    import datetime as _dt
+
+    class MemH(uberjob.ValueStore):
+        def __init__(self, fail_mtime=False):
+            self.v, self.t, self.fail_mtime = None, None, fail_mtime
+
+        def read(self):
+            return self.v
+
+        def write(self, v):
+            self.v, self.t = v, _dt.datetime(2021, 1, 1)
+
+        def get_modified_time(self):
+            if self.fail_mtime:
+                raise OSError("cannot stat")
+            return self.t
+    for shape in ("unstored zero-argument call", "registered literal", "registered literal, failing modified time"):
+        for workers in (1, 3):
+            plan, reg = uberjob.Plan(), uberjob.Registry()
+            with plan.scope("prep"):
+                seed = plan.call(lambda: 1)
+            if shape == "unstored zero-argument call":
+                feed = seed
+            else:
+                feed = plan.lit(5)
+                reg.add(feed, MemH(fail_mtime=shape.endswith("failing modified time")))
+                if not shape.endswith("failing modified time"):
+                    reg.mapping[feed].value_store.write(5)
+            with plan.scope("main"):
+                mid = plan.call(lambda a, b: a + b, feed, seed)
+                top = plan.call(lambda v: v * 2, mid)
+            reg.add(mid, MemH())
+            prog = RecProgress()
+            try:
+                res = uberjob.run(plan, registry=reg, output=top, progress=prog, max_workers=workers)
+                oc = "returned"
+            except BaseException as e:      # noqa
+                oc = "raised %s" % type(e).__name__
+            seq = prog.made[0].seq if prog.made else []
+            d = py_wf(seq)
+            ctx.case(("c15-registry-shapes", shape, workers))
+            problems = [d] if d else []
+            if oc == "returned":
+                tot, fin, ran = collections.Counter(), collections.Counter(), collections.Counter()
+                for kind, section, payload in seq:
+                    if kind == "total":
+                        tot[(section, payload[0])] += payload[1]
+                    elif kind == "completed":
+                        fin[(section, payload)] += 1
+                    elif kind == "running":
+                        ran[section] += 1
+                if tot != fin:
+                    problems.append("after the successful run completed differs from total: totals %r, completed %r" % (dict(tot), dict(fin)))
+                stale_total = sum(v for (sec, _), v in tot.items() if sec == "stale")
+                if stale_total != 3 or ran["stale"] != 3:
+                    problems.append("the plan has 3 calls: 'stale' totals sum to %d and %d were reported running in the stale check" % (stale_total, ran["stale"]))
+            elif not shape.endswith("failing modified time"):
+                problems.append("run %s" % oc)
+            if problems:
+                ctx.fail("registry-shapes:account", "registry run over a plan with %s (max_workers=%d): %s" % (shape, workers, "; ".join(problems)),
+                         {"shape": shape, "max_workers": workers, "outcome": oc, "notifications": [repr(e) for e in seq[:40]]})
     # (g) an observer is an ordinary object: it may define __len__ / __bool__ (a recorder that reports how many events it holds)
     # and be falsy - it still receives the whole account
     for falsy_by in ("__bool__", "__len__"):
